@@ -39,6 +39,8 @@ struct Shadow {
 }
 
 pub struct SerialMonitor {
+	/// on-chain profiles: plain round trips only (no shadow monitors: forks are not replayed to them)
+	pub roundtrip_only: bool,
 	shadows: HashMap<(usize, ChannelId), Shadow>,
 	stale_nodes: BTreeSet<usize>,
 	pending: HashMap<(usize, ChannelId, u64), Vec<u8>>,
@@ -52,8 +54,51 @@ pub struct SerialMonitor {
 }
 
 impl SerialMonitor {
+	/// Z1 in the middle of an on-chain resolution (claims in flight, packages waiting for their timelocks, events
+	/// pending): every monitor is written and read back and must equal the original; the manager must read back.
+	pub fn midchain_point(&mut self, w: &World, v: &mut Verdicts) {
+		for (n, node) in w.nodes.iter().enumerate() {
+			if node.persister.dead.load(std::sync::atomic::Ordering::SeqCst) {
+				continue;
+			}
+			let (keys, bcast, fee, logger, _p, _mon, watch) = quiet_parts(n, &node.cfg, w.fee_now, node.generation);
+			let mut mons: Vec<ChannelMonitor<TapSigner>> = vec![];
+			for cid in node.mon.list_monitors() {
+				let real = match node.mon.get_monitor(cid) {
+					Ok(m) => m,
+					Err(_) => continue,
+				};
+				let bytes = real.encode();
+				v.rep.count("c12_z1_monitors_roundtripped_during_onchain_resolution");
+				if !real.get_claimable_balances().is_empty() {
+					v.rep.count("c12_z1_monitors_roundtripped_with_balances_still_to_claim");
+				}
+				match Self::read_monitor(&bytes, &keys) {
+					Ok(m2) => {
+						if !real.verif_eq(&m2) {
+							let sig = if real.verif_eq_ignoring_in_memory_only_state(&m2) { "a ChannelMonitor holding in-memory-only state (ids of HTLCs already failed back, documented as not serialized) is not equal to the monitor read back from its serialization" } else { "a ChannelMonitor written during an on-chain resolution is not equal to the monitor read back from its serialization" };
+							v.violation("C12", "Z1-roundtrip", sig, format!("node{} chan {} ({} bytes) at height {}", n, cid, bytes.len(), w.chain.height()));
+						}
+						mons.push(m2);
+					},
+					Err(e) => v.violation("C12", "Z1-roundtrip", &format!("a ChannelMonitor does not read back: {}", canon(&e)), format!("node{} chan {}: {}", n, cid, e)),
+				}
+			}
+			if self.rng.chance(1, 4) {
+				let mbytes = node.mgr.encode();
+				let refs: Vec<&ChannelMonitor<TapSigner>> = mons.iter().collect();
+				let args = ChannelManagerReadArgs::new(keys.clone(), keys.clone(), keys.clone(), fee.clone(), watch.clone(), bcast.clone(), Arc::new(NoRouter::default()), Arc::new(NoRouter::default()), logger.clone(), node.cfg.user.clone(), refs);
+				v.rep.count("c12_z1_managers_read_back_during_onchain_resolution");
+				match vcore::guarded(|| <(BlockLocator, Mgr)>::read(&mut &mbytes[..], args)) {
+					Ok(Ok(_)) => {},
+					Ok(Err(e)) => v.violation("C12", "Z1-roundtrip", &format!("a ChannelManager does not read back: {}", canon(&format!("{:?}", e))), format!("node{} at height {}", n, w.chain.height())),
+					Err(pn) => v.violation("C12", "Z1-roundtrip", &format!("a ChannelManager does not read back: panic: {}", canon(&pn)), format!("node{} at height {}", n, w.chain.height())),
+				}
+			}
+		}
+	}
 	pub fn new() -> Self {
-		SerialMonitor { shadows: HashMap::new(), stale_nodes: BTreeSet::new(), pending: HashMap::new(), persisted_first: BTreeSet::new(), settles: 0, rng: vcore::Rng::new(0xC12), announced: BTreeSet::new(), probe_gave_up: BTreeSet::new() }
+		SerialMonitor { roundtrip_only: false, shadows: HashMap::new(), stale_nodes: BTreeSet::new(), pending: HashMap::new(), persisted_first: BTreeSet::new(), settles: 0, rng: vcore::Rng::new(0xC12), announced: BTreeSet::new(), probe_gave_up: BTreeSet::new() }
 	}
 	fn apply(&mut self, node: usize, chan: ChannelId, update_id: u64, bytes: &[u8], v: &mut Verdicts) {
 		if let Some(s) = self.shadows.get_mut(&(node, chan)) {
@@ -251,6 +296,9 @@ impl Monitor for SerialMonitor {
 			_ => {},
 		}
 	}
+	fn on_midchain(&mut self, w: &World, v: &mut Verdicts) {
+		self.midchain_point(w, v);
+	}
 	fn on_settled(&mut self, w: &World, v: &mut Verdicts) {
 		self.settles += 1;
 		for (n, node) in w.nodes.iter().enumerate() {
@@ -304,7 +352,9 @@ impl Monitor for SerialMonitor {
 							v.violation("C12", "Z1-roundtrip", sig, format!("node{} chan {} ({} bytes)", n, cid, bytes.len()));
 						}
 						let rts = self.shadows.get(&key).map(|s| s.roundtrips + 1).unwrap_or(1);
-						self.shadows.insert(key, Shadow { mon: m2, keys: keys.clone(), bcast, fee, logger, applied: 0, roundtrips: rts });
+						if !self.roundtrip_only {
+							self.shadows.insert(key, Shadow { mon: m2, keys: keys.clone(), bcast, fee, logger, applied: 0, roundtrips: rts });
+						}
 					},
 					Err(e) => {
 						v.violation("C12", "Z1-roundtrip", &format!("a ChannelMonitor does not read back: {}", canon(&e)), format!("node{} chan {}: {}", n, cid, e));
